@@ -534,6 +534,23 @@ def r7_seed(ctx, F):
               bad='SIM: choices are not all made with the chooser state created from the seed')
     # worker index 0 is the one that gets thread_seed unmodified: no re-seed before loop
     rs = w.calls_to('SeedableRng::seed_from_u64')
+    # ... from the per-thread seed, i.e. the very value the first trace gets (the same captured variable):
+    # seeded from anything the threads share, every worker would draw the same later seeds and run the same traces
+    same = False
+    if rs and sv.kind == 'local':
+        from taint import vals_of
+        firsts = set()
+        for d in w.defs.get(sv.key, []):
+            if d[1] != 'call' and d[2]['rv']['k'] == 'use' and not w.dominates(cc.bb, d[0]):
+                firsts.add(noref(w.val(d[2]['rv']['op'])))
+        raw = noref(w.val(rs[0].args[0]))
+        got = set(noref(x) for x in vals_of(w, raw))
+        same = raw == sv or (bool(got) and all(x == sv or x in firsts for x in got))
+    ctx.check(same, rule, 'rng-seeded-from-thread-seed', w,
+              good='the rng that draws the later seeds of a worker is seeded with that worker\'s own seed',
+              bad='SIM worker: the rng that draws the seeds of the later traces is not seeded with the per-thread '
+                  'seed the first trace uses: workers that share its seed draw the same sequence and repeat each '
+                  'other\'s traces instead of exploring different ones')
     ctx.check(len(rs) >= 1, rule, 'rng-seeded-from-seed', w,
               good='the per-thread rng for later traces is seeded from the same seed',
               bad='SIM worker: no rng seeded from the thread seed')
